@@ -18,3 +18,6 @@ func BeforeRLock(point string, mu *sync.RWMutex) {}
 
 // BeforeMutex is called immediately before mu.Lock().
 func BeforeMutex(point string, mu *sync.Mutex) {}
+
+// Gate is the generic form of BeforeLock / BeforeRLock / BeforeMutex for mechanically instrumented call sites.
+func Gate(point string, mu any, read bool) {}
